@@ -725,6 +725,23 @@ theorem answer_refines (q : Query) {s : CState} (hs : SInv lg s) (hn : NoLegacyS
   | defaultCategory u => exact ⟨rfl, hs, rfl⟩
   | quantityType u => exact ⟨rfl, hs, rfl⟩
   | catInfo c => exact ⟨rfl, hs, rfl⟩
+  | allUnits => exact ⟨rfl, hs, rfl⟩
+  | allUnitNames => exact ⟨rfl, hs, rfl⟩
+  | unitNames qt => exact ⟨rfl, hs, rfl⟩
+  | quantityTypes => exact ⟨rfl, hs, rfl⟩
+  | checkQuantityType qt => exact ⟨rfl, hs, rfl⟩
+  | categories => exact ⟨rfl, hs, rfl⟩
+  | isValidCategory c => exact ⟨rfl, hs, rfl⟩
+  | unitName qt u => exact ⟨rfl, hs, rfl⟩
+  | checkQtUnit qt u => exact ⟨rfl, hs, rfl⟩
+  | info qt u fu => exact ⟨rfl, hs, rfl⟩
+  | getValue c u v x =>
+    obtain ⟨w, i, r⟩ := obtain_good lg false c u s hs hn
+    obtain ⟨w0, _, _⟩ := obtain_good lg false c u _ hf hnf
+    simp only [answer]
+    simp only at w w0 i r
+    rw [w, w0]
+    exact ⟨rfl, i, r⟩
   | derived entries =>
     obtain ⟨v, i, r⟩ := obtainDict_good lg false entries hs hd hn
     obtain ⟨v0, _, _⟩ := obtainDict_good lg false entries hf (dinv_fresh lg s.reg) hnf
@@ -924,6 +941,17 @@ theorem answer_reg (s : CState) (q : Query) : (answer lg s q).1.reg = s.reg := b
   | defaultCategory u => rfl
   | quantityType u => rfl
   | catInfo c => rfl
+  | allUnits => rfl
+  | allUnitNames => rfl
+  | unitNames qt => rfl
+  | quantityTypes => rfl
+  | checkQuantityType qt => rfl
+  | categories => rfl
+  | isValidCategory c => rfl
+  | unitName qt u => rfl
+  | checkQtUnit qt u => rfl
+  | info qt u fu => rfl
+  | getValue c u v x => exact obtain_reg lg s false c u
   | derived entries => exact (obtainDict_dext lg s false entries).1
   | createDerived entries => exact (createDerived_dext lg s entries).1
   | prod op c1 u1 c2 u2 x y =>
@@ -971,6 +999,17 @@ theorem answer_dext (s : CState) (q : Query) : DExt lg s (answer lg s q).1 := by
   | defaultCategory u => exact dext_refl lg s
   | quantityType u => exact dext_refl lg s
   | catInfo c => exact dext_refl lg s
+  | allUnits => exact dext_refl lg s
+  | allUnitNames => exact dext_refl lg s
+  | unitNames qt => exact dext_refl lg s
+  | quantityTypes => exact dext_refl lg s
+  | checkQuantityType qt => exact dext_refl lg s
+  | categories => exact dext_refl lg s
+  | isValidCategory c => exact dext_refl lg s
+  | unitName qt u => exact dext_refl lg s
+  | checkQtUnit qt u => exact dext_refl lg s
+  | info qt u fu => exact dext_refl lg s
+  | getValue c u v x => exact ob s false c u
   | derived entries => exact obtainDict_dext lg s false entries
   | createDerived entries => exact createDerived_dext lg s entries
   | prod op c1 u1 c2 u2 x y =>
